@@ -30,13 +30,21 @@ MODELS = [("c05", "Extract/ExC05.v", "run_C05")]
 # exploration (runs in worker processes)
 
 def family_of_exception(exc):
-    if exc.startswith("IndexError@key_binding/bindings/vi.py:") and (
-            exc.endswith(":_yank_to_register") or exc.endswith(":delete_or_change_operator")):
+    """exc = 'Type@file:function<handlerfile:handler' -> a family name for known-finding matching"""
+    head, _, via = exc.partition("<")
+    if head.startswith("IndexError@key_binding/bindings/vi.py:") and (
+            head.endswith(":_yank_to_register") or head.endswith(":delete_or_change_operator")):
         return "register-operator-motion"
-    if exc.startswith("AssertionError@document.py:get_cursor_") and exc.endswith("_position"):
+    if head.startswith("AssertionError@document.py:get_cursor_") and head.endswith("_position"):
         return "updown-count-below-1"
-    if exc.startswith("Exception@application/application.py:exit"):
+    if head.startswith("Exception@application/application.py:exit"):
         return "exit-after-done"
+    if head == "AssertionError@document.py:__init__" and via == "named_commands.py:yank":
+        return "yank-lines-count-below-1"
+    if head == "AssertionError@buffer.py:_search":
+        return "search-count-below-1"
+    if head == "IndexError@key_binding/bindings/vi.py:_delete_before_multiple_cursors":
+        return "multicursor-stale-backspace"
     return exc
 
 
@@ -51,16 +59,23 @@ def judge(cfg, keys, r):
             out.append(({"clause": "exception", "family": family_of_exception(exc)},
                         "exception escapes the key processor: " + exc, j))
         for cl, tag in drv.oracle_state(a):
-            out.append(({"clause": tag, "editing": a["editing"]}, cl, j))
+            if tag == "multicursor-range":
+                if any(t == tag for _, t in drv.oracle_state(b)):
+                    continue            # report the key that took the positions out of the text, once
+                h = (a.get("handler") or "?").split(".")[-1]
+                fam = "history-in-insert-multiple" if h in ("previous_history", "next_history") else h
+                out.append(({"clause": tag, "family": fam}, cl + " (after %s)" % h, j))
+            else:
+                out.append(({"clause": tag, "editing": a["editing"]}, cl, j))
         if tok == "<escape>" and not exc:
             for cl, tag in drv.oracle_escape(b, a):
                 fam = "escape-as-argument" if b["kbuf"] > 0 else "escape-direct"
                 out.append(({"clause": tag, "family": fam}, cl + " (dispatched to %s)" % a.get("handler"), j))
     oc = r["outcome"]
     if oc[0] == "accept" and r["trace"]:
-        last = r["trace"][-1][3]
-        if oc[1] != last["dtext"]:
-            out.append(({"clause": "accept"}, "accept returned %r but the buffer text is %r" % (oc[1], last["dtext"]),
+        # "the value returned on accept is exactly the buffer text at that moment"
+        if oc[1] != r.get("text_at_exit"):
+            out.append(({"clause": "accept"}, "accept returned %r but the buffer text at that moment was %r" % (oc[1], r.get("text_at_exit")),
                         len(r["trace"]) - 1))
     if oc[0] == "error" and oc[1] != "TimeoutError":
         out.append(({"clause": "exception", "family": "prompt-result:" + oc[1]},
@@ -288,8 +303,6 @@ def oracle_bop(op, code, t0, c0, t1, c1, anchor, ro):
     if not ro and code != 0:
         if k in (4, 6) or (k == 5 and op[1] >= 0) or (k in (9, 10) and op[1] >= 1):
             return "%s raised with valid arguments" % BOPS[k]
-    if k in (9, 10) and op[1] < 1 and code != 1:
-        return "%s(count < 1) did not assert" % BOPS[k]
     if ro and t1 != t0 and k not in (13, 14, 15, 16, 17) and not (k == 3 and op[3]):
         return "text of a read-only buffer changed"
     return None
@@ -448,11 +461,15 @@ def gen_explore_cases(chk, all_keys):
         (dict(mode="emacs", multiline=False, text="hello", cursor=3), ["<s-left>", "<c-c>", "<c-m>"]),
         (dict(mode="vi", multiline=True, text="ab\ncd\nef", cursor=0), gen.tokenize("<escape><c-v>jlIxy<backspace><delete><left><right><escape>")),
         (dict(mode="vi", multiline=True, text="ab\ncd\nef", cursor=1), gen.tokenize("<escape><c-v>jA<paste:><paste:zz>q<escape>")),
+        (dict(mode="vi", multiline=True, text="abc\ndef\nghi", cursor=1, history=["x"]), gen.tokenize("<escape><c-v>jjA<c-up><backspace>z")),
+        (dict(mode="emacs", multiline=False, text="foo bar foo", cursor=5, read_only=True), gen.tokenize("<c-r>foo<c-m><escape>-n")),
+        (dict(mode="emacs", multiline=False, text="ab", cursor=1, clipboard=["whole line", "LINES"]), gen.tokenize("<escape>0<c-y>")),
+        (dict(mode="vi", multiline=True, text="ab cd\n\nef", cursor=3, history=["h1"]), ["<escape>", '"', "<c-m>", "k"]),
     ]
     for cfg, keys in directed:
         cases.append((cfg, keys))
         dist["directed"] += 1
-    nrand = 9000 if thorough else 650
+    nrand = 6000 if thorough else 650
     for _ in range(nrand):
         cfg = gen.rand_config(rng)
         cases.append((cfg, gen.rand_keys(rng, cfg, all_keys, maxlen=60 if thorough else 40)))
